@@ -40,7 +40,11 @@ class Ctx(object):
 class Space(object):
     """One search space: a configuration, its roots, an alphabet and a depth."""
 
-    def __init__(self, cfg, alphabet, depth, roots=((),), name=None):
+    def __init__(self, cfg, alphabet, depth, roots=((),), name=None, check_all_transitions=True, dedup=True):
+        self.check_all_transitions = check_all_transitions
+        #: dedup=False: every history is its own state (plain enumeration of all sequences);
+        #: used for small alphabets with observe / clear / reopen letters
+        self.dedup = dedup
         self.cfg = cfg
         self.alphabet = list(alphabet)
         self.depth = depth
@@ -126,9 +130,15 @@ def _evaluate(check, space, hist, local_seen, seen, want_state=True):
                 check.check_trans(w, tr, ctx)
         if status == "broken":
             return (status, None, ctx, None)
-        dg = _digest(check.state_key(w))
+        key = check.state_key(w)
+        if not space.dedup:
+            key = tuple(key) + (repr(hist).encode("latin-1", "replace"),)
+        dg = _digest(key)
         new = dg not in seen and dg not in local_seen
-        if new and want_state:
+        # The state oracles run on EVERY transition, not only on keys seen for the first
+        # time: the key cannot see what the object holds in RAM (a memo, a cached tally), so two
+        # histories with the same bytes are merged for *extension* only, never for checking.
+        if want_state and (new or space.check_all_transitions):
             local_seen.add(dg)
             check.check_state(w, ctx)
         return (status, dg, ctx, ctx.obs_digest() if new else None)
